@@ -451,6 +451,9 @@ func run(sel int, in []int64) []int64 {
 	if sel == 5 {
 		return histRun(in)
 	}
+	if sel == 6 || sel == 7 {
+		return pubRun(in, sel == 7)
+	}
 	if sel < 1 || sel > 4 {
 		panic(fmt.Sprintf("harness: unknown selector %d", sel))
 	}
@@ -491,6 +494,10 @@ func laws(sel int, in, got []int64, law func(lsel int, lin []int64, sig string))
 		histLaws(in, law)
 		return
 	}
+	if sel == 6 || sel == 7 {
+		pubLaws(in, sel == 7, law)
+		return
+	}
 	o := outcomeOf(in)
 	got = o.got
 	if len(got) < 3 || got[1] != 1 {
@@ -516,6 +523,9 @@ func laws(sel int, in, got []int64, law func(lsel int, lin []int64, sig string))
 	// maps (metrics provider, policy arguments) were filled in the opposite order
 	law(105, cat(res, o.got2), "")
 	law(106, cat(in, res), s1)
+	// bound and eligibility against the CONFIGURED policy entries (not the initialised chain)
+	law(112, cat(in, res), "")
+	law(113, cat(in, res), "")
 	// the same cluster in two differently filled node listers: identical assignments (order included)
 	if o.listA != nil {
 		law(107, cat(o.listA, o.listB), sigListerOrder)
@@ -928,7 +938,7 @@ func gen(rng *vh.Rng, n int, emit func(id string, sel int, in []int64, kind stri
 	if os.Getenv("C17_OLD_BATCHED") == "1" {
 		sel = 2 // development aid: compare a pre-fix worktree with the model of the pre-fix batched path
 	}
-	kinds := []string{"small", "threshold", "large", "history", "malformed", "near-tie", "large"}
+	kinds := []string{"small", "threshold", "large", "history", "malformed", "near-tie", "large", "publish"}
 	var cases []genCase
 	rejected := 0
 	// fixed cases first: the F6 witnesses
@@ -949,6 +959,19 @@ func gen(rng *vh.Rng, n int, emit func(id string, sel int, in []int64, kind stri
 		cases = append(cases, genCase{id: "f6-order", kind: "threshold", sel: sel, in: in})
 	}
 	{
+		// accepted before fix 4209844 and run with an empty chain: cap 1 configured, 5 of 5 nodes assigned
+		in := &input{specs: []specT{{name: 1, cpumax: 1000, pols: []polT{
+			{name: 1, weight: 1, args: []argT{{1, 800}, {2, 200}}}, {name: 3, args: []argT{{4, 1}}}}}}}
+		dup := &input{specs: []specT{{name: 1, cpumax: 1000, maxn: 1}, {name: 1, cpumax: 1000, prefer: true}}}
+		for i := int64(1); i <= 5; i++ {
+			in.nodes = append(in.nodes, nodeT{name: i})
+			dup.nodes = append(dup.nodes, nodeT{name: i})
+			dup.metrics = append(dup.metrics, metricT{name: i, present: true, util: 100 * i})
+		}
+		cases = append(cases, genCase{id: "uninitialisable-chain", kind: "malformed", sel: sel, in: in},
+			genCase{id: "duplicate-scheduler-name", kind: "malformed", sel: sel, in: dup})
+	}
+	{
 		// the node-lister finding in small: 3 nodes, cap 1, (a) no scorer, (b) equal utilisation
 		a := &input{specs: []specT{{name: 1, cpumax: 1000, pols: []polT{{name: 3, weight: 0, args: []argT{{4, 1}}}}}}}
 		b := &input{specs: []specT{{name: 1, cpumax: 1000, maxn: 1}}}
@@ -965,6 +988,14 @@ func gen(rng *vh.Rng, n int, emit func(id string, sel int, in []int64, kind stri
 		kind := kinds[i%len(kinds)]
 		if kind == "history" {
 			cases = append(cases, genCase{id: fmt.Sprintf("g%d", i), kind: kind, sel: 5, hist: genHistory(r)})
+			continue
+		}
+		if kind == "publish" {
+			psel := 6
+			if r.Chance(1, 3) {
+				psel = 7 // the expired-assignment-cache path to applyAssignment
+			}
+			cases = append(cases, genCase{id: fmt.Sprintf("g%d", i), kind: kind, sel: psel, hist: genPubHistory(r)})
 			continue
 		}
 		if kind == "near-tie" {
@@ -988,9 +1019,9 @@ func gen(rng *vh.Rng, n int, emit func(id string, sel int, in []int64, kind stri
 		cases = append(cases, genCase{id: fmt.Sprintf("g%d", i), kind: kind, sel: sel, in: in})
 	}
 	// run the real code on a small worker pool (each batched run sleeps), then emit in order
-	cases = append(fixedHistories(), cases...)
+	cases = append(append(fixedHistories(), fixedPubHistories()...), cases...)
 	for i := range cases {
-		if cases[i].sel == 5 {
+		if cases[i].sel >= 5 {
 			cases[i].toks = cases[i].hist.tokens()
 		} else {
 			cases[i].toks = cases[i].in.tokens()
@@ -1005,6 +1036,8 @@ func gen(rng *vh.Rng, n int, emit func(id string, sel int, in []int64, kind stri
 			for i := range work {
 				if cases[i].sel == 5 {
 					histMemo.Store(key(cases[i].toks), computeHist(cases[i].toks))
+				} else if cases[i].sel >= 6 {
+					pubMemo.Store(pubKey(cases[i].toks, cases[i].sel == 7), computePub(cases[i].toks, cases[i].sel == 7))
 				} else {
 					memo.Store(key(cases[i].toks), compute(cases[i].toks))
 				}
@@ -1019,6 +1052,10 @@ func gen(rng *vh.Rng, n int, emit func(id string, sel int, in []int64, kind stri
 	for _, c := range cases {
 		if c.sel == 5 {
 			emitHistory(c, emit)
+			continue
+		}
+		if c.sel >= 6 {
+			emitPub(c, emit)
 			continue
 		}
 		o, _ := memo.Load(key(c.toks))
